@@ -43,12 +43,12 @@ theorem checkDat_post (db : DB) :
       (∀ t, t ≠ db.dataSeq → dlookup t (checkDat db).fs.dats = dlookup t db.fs.dats)) ∧
     (checkDat db).fs.idx0 = db.fs.idx0 ∧ (checkDat db).fs.idx1 = db.fs.idx1 ∧ (checkDat db).fs.log = db.fs.log ∧
     (checkDat db).dataSeq = db.dataSeq ∧ (checkDat db).verSeq = db.verSeq ∧ (checkDat db).logOpen = db.logOpen ∧
-    (checkDat db).pending = db.pending ∧ (checkDat db).index = db.index := by
+    (checkDat db).pending = db.pending ∧ (checkDat db).index = db.index ∧ (checkDat db).datIdx = db.datIdx := by
   cases h : db.datOpen with
   | true =>
     have e : checkDat db = db := by unfold checkDat; simp [h]
     rw [e]
-    exact ⟨h, fun _ => rfl, fun h' => by simp at h', rfl, rfl, rfl, rfl, rfl, rfl, rfl, rfl⟩
+    exact ⟨h, fun _ => rfl, fun h' => by simp at h', rfl, rfl, rfl, rfl, rfl, rfl, rfl, rfl, rfl⟩
   | false =>
     have e : checkDat db = { emit (emit db "qdb.checklogfile:created" (.createDat db.dataSeq)) "qdb.checklogfile:header"
           (.writeDat db.dataSeq 0 (le32 db.dataSeq)) with datOpen := true, lastPos := 4 } := by
@@ -60,7 +60,7 @@ theorem checkDat_post (db : DB) :
       unfold FS.apply
       simp [dlookup_dset_same, writeAt]
     refine ⟨by rw [e], fun h' => by simp at h', fun _ => ⟨?_, by rw [e], ?_⟩, by rw [hfs], by rw [hfs], by rw [hfs],
-      by rw [e]; rfl, by rw [e]; rfl, by rw [e]; rfl, by rw [e]; rfl, by rw [e]; rfl⟩
+      by rw [e]; rfl, by rw [e]; rfl, by rw [e]; rfl, by rw [e]; rfl, by rw [e]; rfl, by rw [e]; rfl⟩
     · rw [hfs]; simp [dlookup_dset_same]
     · intro t ht
       rw [hfs]; simp [dlookup_dset_other _ _ _ _ ht]
@@ -78,7 +78,7 @@ theorem logWritten_post (d : DB) (bidx : Bytes) (E : List LogEntry) (hs : LogSta
     (logWritten d bidx).dataSeq = d.dataSeq ∧ (logWritten d bidx).verSeq = d.verSeq ∧
     (logWritten d bidx).lastPos = d.lastPos ∧ (logWritten d bidx).datOpen = d.datOpen ∧
     (logWritten d bidx).failed = d.failed ∧ (logWritten d bidx).volatile = d.volatile ∧
-    (logWritten d bidx).opts = d.opts := by
+    (logWritten d bidx).opts = d.opts ∧ (logWritten d bidx).datIdx = d.datIdx := by
   cases ho : d.logOpen with
   | true =>
     have e : checkLog d = d := by unfold checkLog; simp [ho]
@@ -88,7 +88,7 @@ theorem logWritten_post (d : DB) (bidx : Bytes) (E : List LogEntry) (hs : LogSta
       · exact a
     unfold logWritten
     rw [e]
-    refine ⟨?_, rfl, rfl, rfl, ho, rfl, rfl, rfl, rfl, rfl, rfl, rfl, rfl, rfl⟩
+    refine ⟨?_, rfl, rfl, rfl, ho, rfl, rfl, rfl, rfl, rfl, rfl, rfl, rfl, rfl, rfl⟩
     show (d.fs.apply (.appendLog bidx)).log = _
     unfold FS.apply
     simp [hl, List.append_assoc]
@@ -103,7 +103,7 @@ theorem logWritten_post (d : DB) (bidx : Bytes) (E : List LogEntry) (hs : LogSta
       unfold checkLog; rw [if_neg (by simp [ho])]; rfl
     unfold logWritten
     rw [e]
-    refine ⟨?_, rfl, rfl, rfl, rfl, rfl, rfl, rfl, rfl, rfl, rfl, rfl, rfl, rfl⟩
+    refine ⟨?_, rfl, rfl, rfl, rfl, rfl, rfl, rfl, rfl, rfl, rfl, rfl, rfl, rfl, rfl⟩
     show (((d.fs.apply .createLog).apply (.appendLog (le32 d.verSeq))).apply (.appendLog bidx)).log = _
     unfold FS.apply
     simp [hE, encLog]
@@ -160,11 +160,10 @@ structure DiskInv (db : DB) : Prop where
     ∃ f, dlookup r.seq db.fs.dats = some f ∧ ReadsBack f r (r.data.getD [])
   dflags : ∀ kr ∈ diskIndex db.fs, hasFlag kr.2.flags NO_CACHE = false
   dat1 : db.datOpen = true → ∃ f, dlookup db.dataSeq db.fs.dats = some f ∧ db.lastPos = f.length ∧ 4 ≤ f.length
-  dat2 : db.datOpen = false → ∀ k ∈ Keys db.index, k ∈ db.pending
+  /-- while no data file is open for writing, the next one (`DataSeq`) is referenced by nothing on disk -/
+  dat2 : db.datOpen = false → ∀ kr ∈ diskIndex db.fs, kr.2.seq ≠ db.dataSeq
   /-- every record of the disk index (also of keys that are pending now) can be read back -/
   dreads : ∀ kr ∈ diskIndex db.fs, ∃ f v, dlookup kr.2.seq db.fs.dats = some f ∧ ReadsBack f kr.2 v
-  /-- before the first data file is opened nothing is on disk -/
-  dat3 : db.datOpen = false → diskIndex db.fs = []
 
 theorem plan_wf (seq : Nat) (ks : List Key) (hks : ∀ k ∈ ks, k < 2^64) (idx : List (Key × Rec))
     (hwf : ∀ kr ∈ idx, RecWF kr) (pos : Nat) : ∀ kr ∈ (syncPlan seq idx ks pos).1, RecWF kr := by
@@ -275,8 +274,12 @@ theorem sync_logWritten (db : DB) (inv : DiskInv db) (hp : db.pending.isEmpty = 
       DiskInv L ∧ absv L = absv db ∧ L.pending = [] ∧ L.opts = db.opts ∧
       (∃ es, L.effs = db.effs ++ es ∧ es.map (·.2) = syncEffs db) ∧ L.index = 
         (syncPlan db.dataSeq db.index db.pending (checkDat db).lastPos).1 ∧
-      L.fs = db.fs.applyAll (syncEffs db) := by
-  obtain ⟨c_open, c_same, c_new, c_i0, c_i1, c_log, c_ds, c_vs, c_lo, c_pe, c_ix⟩ := checkDat_post db
+      L.fs = db.fs.applyAll (syncEffs db) ∧
+      (L.datIdx = db.datIdx ∧ L.verSeq = db.verSeq ∧ L.dataSeq = db.dataSeq ∧ L.fs.idx0 = db.fs.idx0 ∧
+        L.fs.idx1 = db.fs.idx1 ∧
+        diskIndex L.fs = applyEntriesL (diskIndex db.fs)
+          ((syncPlan db.dataSeq db.index db.pending (checkDat db).lastPos).2.1.map stripE)) := by
+  obtain ⟨c_open, c_same, c_new, c_i0, c_i1, c_log, c_ds, c_vs, c_lo, c_pe, c_ix, c_di⟩ := checkDat_post db
   -- the data file after checklogfile
   have hfile0 : ∃ f0, dlookup db.dataSeq (checkDat db).fs.dats = some f0 ∧ (checkDat db).lastPos = f0.length ∧
       4 ≤ f0.length ∧ (db.datOpen = true → dlookup db.dataSeq db.fs.dats = some f0) := by
@@ -336,10 +339,23 @@ theorem sync_logWritten (db : DB) (inv : DiskInv db) (hp : db.pending.isEmpty = 
     unfold LogState at hEst ⊢
     rw [hlogd', hvs']; exact hEst
   have hlo' : d'.logOpen = db.logOpen := r_lo.trans c_lo
-  obtain ⟨l_log, l_i0, l_i1, l_dats, l_lo, l_pe, l_ix, l_ds, l_vs, l_lp, l_do, l_f, l_vol, l_opts⟩ :=
+  obtain ⟨l_log, l_i0, l_i1, l_dats, l_lo, l_pe, l_ix, l_ds, l_vs, l_lp, l_do, l_f, l_vol, l_opts, l_di⟩ :=
     logWritten_post d' (encLog plan.2.1) E hst'
       (by rw [hlo', hlogd']; exact inv.log1) (by rw [hlo', hlogd']; exact inv.log2)
-  refine ⟨logWritten d' (encLog plan.2.1), ?_, ?_, ?_, l_pe, ?_, hEffs, l_ix.trans hIdxL, hFsL⟩
+  refine ⟨logWritten d' (encLog plan.2.1), ?_, ?_, ?_, l_pe, ?_, hEffs, l_ix.trans hIdxL, hFsL, ?_⟩
+  rotate_right
+  · -- bookkeeping that is used by the crash analysis of defrag
+    have hidx0' : (logWritten d' (encLog plan.2.1)).fs.idx0 = db.fs.idx0 := l_i0.trans (r_i0.trans c_i0)
+    have hidx1' : (logWritten d' (encLog plan.2.1)).fs.idx1 = db.fs.idx1 := l_i1.trans (r_i1.trans c_i1)
+    have hfits2' : ∀ e ∈ plan.2.1, EntryFits e := by
+      rw [← hplan]
+      exact plan_fits db.dataSeq inv.dseq db.pending inv.pkeys db.index inv.wf _ (by rw [hlp0]; exact hf0len)
+        (by rw [hplan]; exact hsmall)
+    have hlogL' : (logWritten d' (encLog plan.2.1)).fs.log = some (le32 db.verSeq ++ encLog (E ++ plan.2.1)) := by
+      rw [l_log, hvs', encLog_append]
+    exact ⟨l_di.trans (r_di.trans c_di), l_vs.trans hvs', l_ds.trans (r_ds.trans c_ds), hidx0', hidx1',
+      (diskIndex_log_append db.fs (logWritten d' (encLog plan.2.1)).fs db.verSeq E plan.2.1
+        hEst inv.ver inv.verlt hEfit hfits2' hidx0' hidx1' hlogL').1⟩
   · -- sync db unfolds to this
     unfold sync
     rw [if_neg (by simp [inv.nv]), if_neg (by simp [hp])]
@@ -423,12 +439,16 @@ theorem sync_logWritten (db : DB) (inv : DiskInv db) (hp : db.pending.isEmpty = 
           subst this
           exact ⟨f ++ plan.2.2, by rw [hs]; exact hdatL, h2.append _⟩
         | false =>
-          obtain ⟨j, hm⟩ := ilookup_mem k r db.index hr
-          have hkin : k ∈ Keys db.index := by
-            -- the key found by ilookup is k itself
-            have : ilookup k db.index = some r := hr
-            exact ilookup_key_mem k r db.index this
-          exact absurd (inv.dat2 ho k hkin) hk
+          -- a clean key has the same place on disk in the disk index, which does not use the next data file
+          have hcl := inv.clean k hk
+          rw [hr] at hcl
+          cases hD : ilookup k (diskIndex db.fs) with
+          | none => rw [hD] at hcl; simp at hcl
+          | some rd =>
+            rw [hD] at hcl
+            simp only [Option.map_some, Option.some.injEq, core, Prod.mk.injEq] at hcl
+            have hmem := ilookup_key_pair' k rd _ hD
+            exact absurd (hcl.1.trans hs) (inv.dat2 ho (k, rd) hmem)
       · exact ⟨f, by rw [hother _ hs]; exact h1, h2⟩
   · -- flags of the disk records
     intro kr hkr
@@ -479,11 +499,7 @@ theorem sync_logWritten (db : DB) (inv : DiskInv db) (hp : db.pending.isEmpty = 
             exact Option.some.inj this
           subst this
           exact ⟨f ++ plan.2.2, v, by rw [hs]; exact hdatL, h2.append _⟩
-        | false =>
-          rw [inv.dat3 ho] at hmem
-          cases hmem
+        | false => exact absurd hs (inv.dat2 ho (kr.1, kr.2) hmem)
       · exact ⟨f, v, by rw [hother _ hs]; exact h1, h2⟩
-  · intro h
-    rw [l_do, r_do, c_open] at h; cases h
 
 end GocoinV.Proofs.C19
